@@ -26,6 +26,10 @@ FIXED_UTMP = "utmp" not in _LEGACY
 FIXED_IOPRIO = "ioprio" not in _LEGACY
 FIXED_MNT_UTF8 = "mnt" not in _LEGACY
 FIXED_ETHTOOL = "ethtool" not in _LEGACY
+# proposed, NOT committed repairs (False = the code as it is): C17_PROPOSED=ifname for a trial run against a copy with
+# notes/fixes/C17-ifname-fs-encoding.diff applied
+_PROPOSED = set(filter(None, os.environ.get("C17_PROPOSED", "").split(",")))
+FIXED_IFNAME = "ifname" in _PROPOSED
 
 RULE = ("utmp files printed from records (every ut_type incl. negative, pid/time over the int32 range, line/user/host of length "
         "0,1,w-1,w with ASCII / non-UTF-8 / ':0' contents, embedded NULs, junk in the other fields) plus raw files with partial "
@@ -34,6 +38,9 @@ RULE = ("utmp files printed from records (every ut_type incl. negative, pid/time
         "every entry point of _psutil_linux/_psutil_posix with ints {0,+-1,2^31+-1,2^63+-1,2^70,...}, str of length 0,15,16,17,4096, "
         "embedded NUL, lone surrogate, bytes, None, float, lists (setters only on the forked child itself or absent PIDs); "
         "Process.ionice(ioclass, value) through the public API; the live interface list against ioctl/sysfs read independently; "
+        "2-4 free-running threads overlapping inside disk_partitions()/users()/the NIC ioctls on the same and on different fed files of 200-400 "
+        "entries (every call must return the single-threaded answer for its own input); the loopback of a private network namespace renamed "
+        "to ASCII / UTF-8 / non-UTF-8 names (net_if_addrs, net_if_stats, net_io_counters must agree on os.fsdecode(name)); "
         "sequences of calls made in ONE process (failing calls with ghost NIC names / absent PIDs, then the live-interface calls, "
         "net_if_stats(), net_if_addrs(), fed users()/disk_partitions(), with harness-owned descriptors opened in between): every step must "
         "answer as in a fresh process and the descriptors must survive; "
@@ -317,6 +324,8 @@ def _ifa_rec(rng, kind=None):
 def _ifaddrs_cases(rng, n):
     out = []
     # every sll_halen once, with a broadcast address of the same length
+    bad = {"name": b"d\xff\xfe".hex(), "flags": 0x49, "addr": "L:772:1:000000000000", "mask": "-", "baddr": "-"}
+    out.append({"kind": "ifaddrs", "cls": "ifaddrs-nonutf8", "recs": [_ifa_rec(rng, "ll"), bad, _ifa_rec(rng, "v4")]})
     recs = [{"name": b"hw%d" % h, "flags": 0x1043, "addr": "L:1:%d:%s" % (h + 1, bytes(range(1, h + 1)).hex()), "mask": "-",
              "baddr": "L:1:%d:%s" % (h + 1, "ff" * h)} for h in (0, 1, 4, 6, 8, 16, 20, 32)]
     for r in recs:
@@ -378,6 +387,16 @@ def _seq_cases(rng, n):
         steps.append({"op": "fdcheck"})
         out.append({"kind": "seq", "cls": "seq", "steps": steps})
     return out
+
+
+IFNAME_POOL = [b"lo", b"nic0", "\u00e90".encode(), b"d\xff\xfe", b"\xe9th0", b"a" * 15, b"x\xc3", "\u4e16".encode() + b"0"]
+
+
+def _ifname_cases():
+    """the loopback interface of a PRIVATE network namespace renamed to each name of the pool (real kernel, no shim):
+    net_if_addrs(), net_if_stats() and net_io_counters(pernic=True) must all list it under os.fsdecode(name)"""
+    return [{"kind": "ifname", "cls": "ifname" if _is_utf8(nm) else "ifname-nonutf8", "name": nm.hex(),
+             "cps": [ord(c) for c in os.fsdecode(nm)]} for nm in IFNAME_POOL]
 
 
 def _threads_cases(rng, tier):
@@ -534,6 +553,8 @@ def gen_cases(rng, tier):
     cases.extend(_seq_cases(rng, {"quick": 5, "thorough": 120, "search": 15}[tier]))
     cases.extend(_threads_cases(rng, tier))
     if tier != "search":
+        cases.extend(_ifname_cases())
+    if tier != "search":
         cases.extend(_entry_cases(rng, tier))
         cases.extend(_live_ifaces())
     else:
@@ -587,6 +608,8 @@ def coq_term(case):
         return "run_entry %s %s %s" % (G.bo(FIXED_IOPRIO), ENTRY_COQ[case["ep"]], G.lst([_pyval(a) for a in case["args"]]))
     if k == "ionice":
         return "run_ionice %s 0 %s %s" % (G.bo(FIXED_IOPRIO), G.z(case["ioclass"]), G.z(case["value"] or 0))
+    if k == "ifname":
+        return "run_ifname %s %s %s" % (G.bo(FIXED_IFNAME), _hb(case["name"]), G.zs(case["cps"]))
     if k == "threads":
         import random as _r
         r = _r.Random(case["seed"])
@@ -597,8 +620,8 @@ def coq_term(case):
         calls = [st for st in case["steps"] if st["op"] == "call"]
         return "run_seq %s %s" % (G.bo(FIXED_IOPRIO), G.lst(["(%s, %s)" % (ENTRY_COQ[c["ep"]], G.lst([_pyval(a) for a in c["args"]])) for c in calls]))
     if k == "ifaddrs":
-        return "run_ifaddrs %s" % G.lst(["(Build_ifa %s %s %s %s %s)" % (_hb(r["name"]), G.z(r["flags"]), _sa_term(r["addr"]),
-                                                                     _sa_term(r["mask"]), _sa_term(r["baddr"])) for r in case["recs"]])
+        return "run_ifaddrs %s %s" % (G.bo(FIXED_IFNAME), G.lst(["(Build_ifa %s %s %s %s %s)" % (_hb(r["name"]), G.z(r["flags"]), _sa_term(r["addr"]),
+                                                                     _sa_term(r["mask"]), _sa_term(r["baddr"])) for r in case["recs"]]))
     if k == "speed":
         return "run_speed %s %s %s %s" % (G.bo(FIXED_ETHTOOL), G.z(case["hi"]), G.z(case["lo"]), G.z(case["duplex"]))
     if k == "netif":
@@ -626,8 +649,19 @@ def coq_struct(case, raw):
         m = [raw[0], raw[1]]
         return {"parts": m, "model": None if any(_oom(x) for x in m) else m, "spec": None}
     if k in ("entry", "ionice"):
+        if FIXED_IFNAME and k == "entry" and case["ep"] in ("net_if_mtu", "net_if_flags", "net_if_is_running", "net_if_duplex_speed") \
+                and len(case["args"]) == 1 and ("y" in case["args"][0] or "s" in case["args"][0]):
+            a = case["args"][0]
+            try:
+                bts = bytes.fromhex(a["y"]) if "y" in a else os.fsencode("".join(chr(c) for c in a["s"]))
+                raw = T("Exc", T("ValueError")) if b"\0" in bts else {"t": "Os", "a": [{"t": "ioctl", "a": []}, [], {"b": bts[:15].hex()}]}
+            except UnicodeError:
+                raw = T("Exc", T("UnicodeError"))
         os_reached = isinstance(raw, dict) and raw.get("t") == "Os"
         return {"cres": raw, "model": None if os_reached else raw, "spec": None}
+    if k == "ifname":
+        nm = [{"b": case["name"]}]
+        return {"model": [raw[0], raw[1], Val(nm)], "spec": [Val(nm), Val(nm), Val(nm)]}
     if k == "threads":
         return {"sim": raw, "model": None, "spec": None}
     if k == "seq":
@@ -675,6 +709,10 @@ def finding_key(case, coq):
             r = f[i:i + 384]
             if struct.unpack_from("<h", r)[0] == 7 and (0 not in r[8:40] or 0 not in r[44:76] or 0 not in r[76:332]):
                 return "users-fullwidth-field"
+    if k == "ifname" and not FIXED_IFNAME and not _is_utf8(bytes.fromhex(case["name"])):
+        return "ifname-not-utf8"
+    if k == "ifaddrs" and not FIXED_IFNAME and any(not _is_utf8(bytes.fromhex(r["name"])) for r in case["recs"]):
+        return "ifname-not-utf8"
     if k == "mounts":
         if any(_fields_len(e) > 4095 for e in case["ents"]):
             return "mounts-line-over-4095"
@@ -788,6 +826,13 @@ def judge(case, coq, impl):
         if coq["model"] is not None and impl != coq["model"]:
             return Verdict("corr", "impl != model")
         return Verdict("ok")
+    if k == "ifname":
+        if _is_abort(impl):
+            return Verdict("violation", "crash / sanitizer abort: %s" % (str(impl)[:400],))
+        if impl != coq["spec"]:
+            return Verdict("violation", "interface %r of a private network namespace: net_if_addrs / net_if_stats / net_io_counters name it %s, "
+                           "demanded %s" % (bytes.fromhex(case["name"]), str(impl)[:300], str(coq["spec"])[:120]))
+        return Verdict("ok") if impl == coq["model"] else Verdict("corr", "impl != model")
     if k in ("utmp", "utmp_raw", "netif", "speed"):
         if coq["spec"] is not None and impl != coq["spec"]:
             return Verdict("violation", "impl != spec")
@@ -904,6 +949,38 @@ def impl_run(case, coq, env):
         def call():
             p = psutil.Process()
             return _outcome(lambda: p.ionice(case["ioclass"], case["value"]), lambda v: None if v is None else T("Some", repr(v)[:80]))
+        return _iso(call)
+    if k == "ifname":
+        import fcntl
+        import socket
+        new = bytes.fromhex(case["name"])
+
+        def call():
+            try:
+                os.unshare(0x40000000)                        # CLONE_NEWNET: this forked child only
+            except (OSError, AttributeError) as e:
+                return T("Skip", "private network namespace unavailable: %s" % e)
+            s = socket.socket(socket.AF_INET, socket.SOCK_DGRAM)
+            try:
+                if new != b"lo":
+                    fcntl.ioctl(s, 0x8923, struct.pack("16s16s8x", b"lo", new))                         # SIOCSIFNAME
+                fl = struct.unpack_from("H", fcntl.ioctl(s, 0x8913, struct.pack("16sH22x", new, 0)), 16)[0]
+                fcntl.ioctl(s, 0x8914, struct.pack("16sH22x", new, fl | 1))                            # up
+            except OSError as e:
+                return T("Skip", "cannot rename the loopback of the private namespace: %s" % e)
+            finally:
+                s.close()
+
+            def keys(d):
+                return sorted(B(os.fsencode(x)) for x in d)
+            a = _outcome(psutil.net_if_addrs, keys)
+            st = _outcome(psutil.net_if_stats, keys)
+            io = _outcome(lambda: psutil.net_io_counters(pernic=True), keys)
+            if st.get("t") == "Val":
+                v = psutil.net_if_stats().get(os.fsdecode(new))
+                if v is not None and not (v.mtu == 65536 and v.isup and "loopback" in v.flags.split(",")):
+                    st = T("BadStats", repr(v))
+            return [a, st, io]
         return _iso(call)
     if k == "threads":
         import ctypes
@@ -1129,6 +1206,10 @@ MANIFEST = {
             "(padded with :00 to six bytes by net_if_addrs), for every input and every previous buffer content; "
             "net_if_addrs() over any interface list gives one row per node with an address of a known family, the hardware address with all "
             "its sll_halen bytes, netmask and broadcast-or-peer by the flags, the Python layer only reordering and padding; "
+            "thread safety: under an interleaving model of getmntent()'s static storage every thread's result is the sequential decode of its own "
+            "file for every schedule as long as read+decode of an entry is atomic (GIL held), refuted for the variant that drops the GIL in "
+            "between; tables generated from the C sources on every run show that no GIL-free region calls a function returning static "
+            "storage and that the extension has no modifiable statics beyond the module tables and the debug flag; "
             "CPU_SET on any long touches bit < 1024 or nothing; the getaffinity sizing loop terminates without int overflow for every kernel "
             "answer; check_pid_range and the argument conversion of all 17 entry points yield a value, a call into the OS or "
             "TypeError/OverflowError/ValueError/UnicodeError for every argument tuple -- no undefined behaviour; ionice() rejects an ioclass "
@@ -1136,7 +1217,9 @@ MANIFEST = {
             "round-trips the kernel's escapes for every entry; for every printed /proc/filesystems and every mounts table "
             "disk_partitions() keeps exactly the entries with a device and a disk-backed type (all=True: every entry, whatever bytes it "
             "contains), for lines up to 4095 bytes; above that exactly the first 4095 bytes are parsed (boundary theorems; known finding), "
-            "a '#' in the device name comes back as \\043 and an empty device name shifts the fields (known findings, refuted theorems). The repaired defects are kept as refuted theorems about the legacy variants "
+            "a '#' in the device name comes back as \\043 and an empty device name shifts the fields (known findings, refuted theorems); "
+            "an interface name that is not UTF-8 makes net_if_addrs()/net_if_stats() raise (known finding with a proposed repair, proved "
+            "total for the repaired variant). The repaired defects are kept as refuted theorems about the legacy variants "
             "of the model (full-width utmp fields read across field borders and past the record; signed 'ioclass << 13' and 'speed_hi << 16'; "
             "strict UTF-8 on mount type/options). The compiled code is tied to the model by running the real extension built with clang "
             "ASan+UBSan on generated utmp files, mount tables, interface lists fed through a getifaddrs() shim compiled at check time, and an argument sweep over all entry "
